@@ -3033,7 +3033,7 @@ func rangeInt(n *node) {
 	next := n.exec
 	index := index0
 	ixn.exec = func(f *frame) bltn {
-		f.data[index2] = value(f) // set max
+		f.data[index2] = reflect.ValueOf(value(f).Interface()) // set max: the operand is evaluated once
 		f.data[index].SetInt(-1)  // assing index value
 		return next
 	}
